@@ -174,6 +174,8 @@ func genTermCase(t *rapid.T) termCase {
 	return c
 }
 
+func estimate(text string) float64 { return rc.EstimateExpansion(text) }
+
 func request(c termCase) wk.Request {
 	mode := 2
 	if c.Cfg.Legacy {
